@@ -87,6 +87,14 @@ pub fn swap_edge<T: CoordsFloat>(
         abort(EdgeSwapError::BadTopology)?;
     }
 
+    // coordinates of the four corners: l: A -> B, r: B -> A, b0l: C -> A, b0r: D -> B
+    let vid_a = map.vertex_id_transac(t, l)?;
+    let vid_b = map.vertex_id_transac(t, r)?;
+    let vid_c = map.vertex_id_transac(t, b0l)?;
+    let vid_d = map.vertex_id_transac(t, b0r)?;
+    let (va, vb) = (map.read_vertex(t, vid_a)?, map.read_vertex(t, vid_b)?);
+    let (vc, vd) = (map.read_vertex(t, vid_c)?, map.read_vertex(t, vid_d)?);
+
     try_or_coerce!(map.unsew::<1>(t, l), EdgeSwapError);
     try_or_coerce!(map.unsew::<1>(t, r), EdgeSwapError);
     try_or_coerce!(map.unsew::<1>(t, b0l), EdgeSwapError);
@@ -100,6 +108,16 @@ pub fn swap_edge<T: CoordsFloat>(
     try_or_coerce!(map.sew::<1>(t, r, b0l), EdgeSwapError);
     try_or_coerce!(map.sew::<1>(t, b0l, b1r), EdgeSwapError);
     try_or_coerce!(map.sew::<1>(t, b1r, r), EdgeSwapError);
+
+    // the intermediate (un)sews split and re-merge the corner vertices, which averages
+    // coordinates of distinct vertices; a swap moves no vertex: put the corners back
+    // (after the swap, l: C -> D, r: D -> C, b1l: B -> C, b1r: A -> D)
+    for (d, v) in [(b1r, va), (b1l, vb), (l, vc), (r, vd)] {
+        if let Some(v) = v {
+            let vid = map.vertex_id_transac(t, d)?;
+            map.write_vertex(t, vid, v)?;
+        }
+    }
 
     Ok(())
 }
